@@ -9,7 +9,7 @@ PROPS = {
         bounded_note='Kani stand-ins for detach / eq_with / to_bytes / bytestr / to_bytes_with_padding / to_hex_string: 3-byte backing '
                      'buffer with symbolic contents, concrete ranges S..E from the stated index sets; labelled BOUNDED, not counted as proved',
         assumed_backed_by={'Bitstr::detach': 'c04_detach*'},
-        not_decided=['bytestr in Verus (returns a Cow; bounded Kani stand-in)', 'from_bin_str (used by tests only)', 'bit values of bitstr-and/or/xor (thin contract: lengths)'],
+        not_decided=['bytestr in Verus (returns a Cow; bounded Kani stand-in)', 'from_bin_str (used by tests only)'],
         technique='Verus contracts (view() = bit sequence, type invariant) on functions extracted from src/bitstr.rs each run; Kani bounded stand-ins for adapter-chain functions',
         level_text='Every obligation is a deductive proof over all buffer lengths, alignments, ownership-independent '
                    'views and stale bits: each bit-string operation is specified against the plain bit sequence view() '
